@@ -160,7 +160,7 @@ def gen_c17(rng, oracle, index, tier="quick"):
         ids = sorted(rng.sample(sorted(g.leafb), min(n, len(g.leafb))))
         dt = rng.choice(["float64", "float64", "int32", "int16", "int64", "float32"])
         rows = []
-        for _ in range(rng.randint(1, 4)):
+        for _ in range(rng.choice([0, 1, 1, 2, 3, 4])):
             if dt.startswith("float"):
                 rows.append([rng.choice([0, 1, -1, 0.5, 1.5, -2.5])] + [rng.choice([0, 1, -1, 0.5, -0.5, 2]) for _ in ids])
             else:
